@@ -93,6 +93,8 @@ var c10NamedTypes = []int{0x00, 0x01, 0x10, 0x11, 0x12, 0x13, 0x14, 0x15, 0x16, 
 	0x30, 0x31, 0x32, 0x33, 0x34, 0x35, 0x36, 0x37, 0x3C, 0x3D, 0x40, 0x41, 0x42, 0x43, 0x44, 0x45, 0x50, 0x51, 0x02}
 
 var c10Alphabets = map[string]*c10Alphabet{
+	"long": {name: "long", closeBy: "index", nClose: 3, again: true, autoPTS: true,
+		process: c10Values(c10NamedTypes, []uint32{1, 2, 3}, []int{0}, false)},
 	"core": {name: "core", closeBy: "index", nClose: 2, again: false, autoPTS: true,
 		process: c10Values([]int{0x10, 0x13, 0x14, 0x41, 0x22, 0x23}, []uint32{1, 2}, []int{0}, false)},
 	"wide-quick": {name: "wide-quick", closeBy: "value", again: true,
@@ -516,6 +518,77 @@ func c10Scenario(name, rule, alphaQuick, alphaThorough string, depthQuick, depth
 	}
 }
 
+type c10Long struct {
+	Pattern int `json:"pattern"`
+	N       int `json:"n"`
+	Again   int `json:"again_at"` // position after which the same object is processed again (-1: never)
+}
+
+// c10LongHistory expands a pattern into operation indices of the "long" alphabet.
+func c10LongHistory(c c10Long) []int {
+	a := c10Alphabets["long"]
+	idx := func(typ int, ev uint32) int {
+		for i, v := range a.process {
+			if v.Type == typ && v.Event == ev {
+				return i
+			}
+		}
+		panic("c10: value not in alphabet")
+	}
+	closeOp := func(k int) int { return len(a.process) + k }
+	var h []int
+	ev := func(i int) uint32 { return uint32(1 + i%3) }
+	switch c.Pattern {
+	case 0: // N start/end pairs (more distinct PTS values than the duplicate ring holds)
+		for i := 0; i < c.N; i++ {
+			h = append(h, idx(0x10, ev(i)), idx(0x11, ev(i)))
+		}
+	case 1: // N chapter starts left open, then a program end closing everything
+		h = append(h, idx(0x10, 1))
+		for i := 0; i < c.N; i++ {
+			h = append(h, idx(0x20, ev(i)))
+		}
+		h = append(h, idx(0x11, 1))
+	case 2: // repeated breakaway / resumption cycles with content opened inside the blackout
+		h = append(h, idx(0x10, 1))
+		for i := 0; i < c.N; i++ {
+			h = append(h, idx(0x30, ev(i)), idx(0x13, 1), idx(0x40, ev(i)), idx(0x30, ev(i+1)), idx(0x14, 1), idx(0x31, ev(i)))
+		}
+		h = append(h, idx(0x11, 1))
+	case 3: // placement opportunities with ends, explicit closes from the front of the list
+		h = append(h, idx(0x10, 2))
+		for i := 0; i < c.N; i++ {
+			h = append(h, idx(0x34, ev(i)), idx(0x36, ev(i)), idx(0x37, ev(i)), idx(0x35, ev(i)), closeOp(0), idx(0x10, ev(i)))
+		}
+	case 4: // nested breakaways closed by unscheduled events and network signals
+		for i := 0; i < c.N; i++ {
+			h = append(h, idx(0x10, ev(i)), idx(0x13, ev(i)), idx(0x22, ev(i)), idx(0x13, ev(i+1)), idx(0x41, ev(i)), idx(0x50, 1), idx(0x14, ev(i)), idx(0x51, 1), closeOp(1))
+		}
+	}
+	if c.Again >= 0 && c.Again < len(h) {
+		again := a.nops() - 1
+		h = append(h[:c.Again+1], append([]int{again}, h[c.Again+1:]...)...)
+	}
+	return h
+}
+
+func c10CheckLong(c c10Long) engine.Result {
+	var res engine.Result
+	s := c10New(c10Alphabets["long"])
+	for i, op := range c10LongHistory(c) {
+		if !c10Apply(s, op, &res, i) {
+			continue
+		}
+		res.Evals++
+		res.Trans++
+		if len(res.Fail) > 0 {
+			break
+		}
+	}
+	res.Nontrivial = 1
+	return res
+}
+
 func init() {
 	common := " Monitor after every call (object identities via the private-state hook): no panic in ProcessDescriptor/Close/Open; internal list after == (list before minus removed, order kept) [+ incoming at the end]; removed elements are exactly the returned closed ones (or discarded, only in a program-resumption call); each closed one was open, appears once, is closable under the frozen rule table (equal to the argument for Close), closed list ordered last-opened first; no descriptor ever reported closed/discarded is in the list again; Open() is a duplicate-free ordered part of the internal list; same object twice in a row => rejected (as duplicate when the first call recorded it) with the list unchanged; no-PTS descriptor => rejected with the list unchanged. Canonical key = open list values + stale backing-array tail + breakaway bookkeeping + duplicate ring (per-slot value sets in ring order) + monitor memory."
 	engine.Register(&engine.Property{
@@ -527,6 +600,26 @@ func init() {
 				"focused", "focused", 4, 5),
 			c10Scenario("distinct-pts", "BFS to depth 4 (thorough 5) over {Process for types {0x10,0x11,0x13,0x14,0x22,0x23,0x40,0x41,0x50,0x51} x event {1,2} with PTS = 100+position (always distinct), Close(equal of the k-th internal element, k<3)}: reaches the deep breakaway/resumption histories."+common,
 				"distinct-pts", "distinct-pts", 4, 5),
+			&engine.Enum[c10Long]{
+				Name: "long-histories",
+				Rule: "five history patterns (start/end pairs; many chapters closed by one program end; breakaway/resumption cycles with content opened in the blackout; placement opportunities with explicit closes; nested breakaways closed by unscheduled-event and network signals) repeated N = 1..12 (thorough 1..40) times with always-distinct PTS (histories of up to ~360 calls, beyond the 10-slot duplicate ring), each also with the same object processed again after every position; the identity monitor runs after every call." + common,
+				Gen: func(r *engine.Run, emit func(c10Long)) {
+					maxN := 12
+					if r.Thorough() {
+						maxN = 40
+					}
+					for p := 0; p < 5; p++ {
+						for n := 1; n <= maxN; n++ {
+							base := c10Long{p, n, -1}
+							emit(base)
+							for at := 0; at < len(c10LongHistory(base)); at++ {
+								emit(c10Long{p, n, at})
+							}
+						}
+					}
+				},
+				Check: c10CheckLong, Batch: 8,
+			},
 			c10Scenario("core-deep", "BFS to depth 5 (thorough 6) over {Process for types {0x10,0x13,0x14,0x41,0x22,0x23} x event {1,2} with PTS = 100+position, Close(equal of the k-th internal element, k<2)}: the deepest breakaway/resumption/close interplay."+common,
 				"core", "core", 5, 6),
 		},
